@@ -13,6 +13,7 @@ def specs(tier):
     q = tier == 'quick'
     js = [
         J('j-voted3:E1P1R2', 'voted', dict(n=3, journal='file'), dict(E=1, P=1, R=2)),
+        J('j-requested3-killvoter:E1P1R1', 'vote_requested', dict(n=3, journal='file', kill_only=('n2:1',)), dict(E=1, P=1, R=1)),
         J('j-lagging-newleader3:H1R1P1', 'lagging_newleader', dict(n=3, journal='file'), dict(H=1, R=1, P=1)),
         J('j-fresh2:E2P1R1', 'fresh', dict(n=2, journal='file'), dict(E=2, P=1, R=1)),
         J('j-fresh3:E1P1R1', 'fresh', dict(n=3, journal='file'), dict(E=1, P=1, R=1)),
